@@ -188,6 +188,11 @@ func (s *Sorts) sortOf(t types.Type) string {
 		return name
 	case *types.Array:
 		return "(Array Int " + s.sortOf(u.Elem()) + ")"
+	case *types.Map:
+		if isGhostMap(t) {
+			return "(Array Int " + s.sortOf(u.Elem()) + ")"
+		}
+		return "Int"
 	case *types.Tuple:
 		return "Tuple"
 	}
@@ -233,6 +238,16 @@ func (s *Sorts) zeroValue(t types.Type) string {
 		return "((as const " + s.sortOf(t) + ") " + s.zeroValue(u.Elem()) + ")"
 	}
 	return "0"
+}
+
+// isGhostMap: spec-only total maps keyed by references, written [ref]T in contracts.
+func isGhostMap(t types.Type) bool {
+	m, ok := t.Underlying().(*types.Map)
+	if !ok {
+		return false
+	}
+	b, ok := m.Key().(*types.Basic)
+	return ok && b.Kind() == types.UnsafePointer
 }
 
 const emptyStr = "(mk_str ((as const (Array Int Int)) 0) 0 0)"
